@@ -118,7 +118,7 @@ def raw_reactor(R, substrate, template, *, invert, strategy, mode):
     return R2, len(raw)
 
 
-def prune_model(R, substrate, template, *, invert, strategy, mode, keyfn, max_raw: int = 300):
+def prune_model(R, substrate, template, *, invert, strategy, mode, keyfn, max_raw: int = 120):
     """Data for Prune.tla: the pattern the code prunes on, every raw match (in the order of the search) and the
     distinct reactions obtained at each single match.  None when there are too many raw matches to replay one by one."""
     from synkit.Graph.Hyrogen._misc import has_XH, h_to_implicit
@@ -137,7 +137,9 @@ def prune_model(R, substrate, template, *, invert, strategy, mode, keyfn, max_ra
     raw = SubgraphSearchEngine.find_subgraph_mappings(host=R.graph.raw, pattern=pat, node_attrs=["element", "charge"], edge_attrs=["order"],
                                                       strategy=Strategy.from_string(R.strategy), threshold=R.embed_threshold,
                                                       pre_filter=R.embed_pre_filter)
-    if len(raw) > max_raw or not raw:
+    if len(raw) > max_raw:
+        return {"skipped": "more-than-%d-raw-matches" % max_raw}     # too many single-match replays: the model is not evaluated
+    if not raw:
         return None
     ids = sorted(pat.nodes())
     pos = {v: k for k, v in enumerate(ids)}
